@@ -18,7 +18,9 @@ RULE = ('excproxy: EVERY builtin exception class (enumerated from builtins at ru
         'non-Exception leaf, a BaseExceptionGroup subclass and user BaseException classes are not Exceptions: they must reach '
         'the caller as the very object raised, with str / args / notes as before the call). Engine served-attrs '
         '(implementation only): classes that SERVE their public fields through the attribute protocol (__getattr__ over an '
-        'instance payload, a __slots__ payload, a mixin, the args or a class table; __getattribute__; non-data descriptors).')
+        'instance payload, a __slots__ payload, a mixin, the args or a class table; __getattribute__; non-data descriptors). '
+        'Engine new-state (implementation only): classes whose own __new__ writes per-instance attributes, with .args that are '
+        'not what __new__ was given (formatted / empty / reversed) and state filled or reassigned before the raise.')
 TRUSTED_BASE = [
     'Coq 8.16.1 kernel; vm_compute in the correspondence run',
     'hand-written model coq/Model/ExcProxy.v of gin/utils.py:21-60 (attribute resolution: type-level data descriptor, instance dict, __getattr__ forwarding); tied to /repo by harness/props/c17.py',
@@ -151,6 +153,28 @@ class Unsupported(TypeError):
     self.payload = payload
 
 
+class NewDerives(Exception):
+  """__new__ accepts .args and derives an attribute from its first argument; .args is a formatted message"""
+  def __new__(cls, limit, *rest, **kw):
+    self = super().__new__(cls, limit, *rest)
+    self.limit = limit
+    return self
+  def __init__(self, limit, used=0):
+    super().__init__('limit of %d exceeded (used %d)' % (limit, used))
+    self.used = used
+
+class NewJournal(RuntimeError):
+  """__new__ creates per-instance state that is filled in before the raise"""
+  def __new__(cls, *args):
+    self = super().__new__(cls, *args)
+    self.events = []
+    self.phase = 'new'
+    return self
+  def __init__(self, what):
+    super().__init__(what)
+    self.events.append(('failed', what))
+    self.phase = 'initialised'
+
 class ZeroOrCode(Exception):
   """constructible with no argument or with (code, detail), but NOT from its own .args (a 3-tuple)"""
   def __new__(cls, code=None, detail=''):
@@ -175,7 +199,7 @@ USER_ARGS = {'NeedsArgs': "(7, 'boom')", 'NeedsNewArgs': "(1, 2)", 'Slotted': "(
              'WithProperty': "(21,)", 'OsChild': "(13, 'denied')", 'KwOnly': "(reason='why')", 'ZeroOrCode': "(5, 'boom')",
              'ClassDefault': "(5,)", 'NewNeedsArg': "(7,)",
              'Abort': "('stop', 4)", 'Cancelled': "('tok',)", 'Nursery': "('nursery', [ValueError(1), KeyError('k')])",
-             'NewValidates': "(5,)", 'TaskErrors': "('tasks failed', [ValueError(1), KeyError('k')])", 'NotFound': "('gone',)"}
+             'NewValidates': "(5,)", 'NewDerives': "(5, 7)", 'NewJournal': "('flush',)", 'TaskErrors': "('tasks failed', [ValueError(1), KeyError('k')])", 'NotFound': "('gone',)"}
 
 
 def public_attrs(e):
@@ -266,7 +290,8 @@ class ExcEngine(Engine):
         cases.append({'cls': name, 'user': user, 'depth': depth, 'via_ref': depth == 2, 'args': args})
     # an intermediate configurable catches the exception, annotates that object and re-raises it with a bare raise
     for name, user in (('ValueError', False), ('FileNotFoundError', False), ('KeyError', False), ('TypeError', False),
-                       ('NeedsArgs', True), ('Slotted', True), ('ClassDefault', True), ('ZeroOrCode', True), ('NewValidates', True)):
+                       ('NeedsArgs', True), ('Slotted', True), ('ClassDefault', True), ('ZeroOrCode', True), ('NewValidates', True),
+                       ('NewDerives', True), ('NewJournal', True)):
       for depth in (2, 3):
         cases.append({'cls': name, 'user': user, 'depth': depth, 'via_ref': False, 'annotate': True})
     return cases
@@ -700,6 +725,261 @@ class ServedEngine(Engine):
             (['evaluated-ref'] if evaluated else []) + (['scoped'] if scope else [])}
 
 
+# ---------------------------------------------------------------------------------------------------------------------
+# classes whose own __new__ keeps per-instance state
+# ---------------------------------------------------------------------------------------------------------------------
+NEWSTATE_BASES = ('Exception', 'ValueError', 'RuntimeError', 'KeyError', 'LookupError', 'ArithmeticError')
+# how __new__ takes its arguments: source lines binding `self`, `first` and the tuple `args`
+NEWSTATE_SIGS = {
+    'star': ['  def __new__(cls, *args, **kw):', '    self = super().__new__(cls, *args)', '    first = args[0] if args else None'],
+    'first': ['  def __new__(cls, first, *rest, **kw):', '    self = super().__new__(cls, first, *rest)', '    args = (first,) + rest'],
+    'default': ['  def __new__(cls, first=None, second=0, **kw):', '    self = super().__new__(cls)', '    args = (first, second)'],
+    'two': ['  def __new__(cls, first, second, **kw):', '    self = super().__new__(cls, first, second)', '    args = (first, second)'],
+}
+# when __new__ stores the attributes a case lists as 'conditional': only if it was GIVEN something beyond the minimum
+NEWSTATE_GIVEN = {'star': 'bool(args)', 'first': 'bool(rest)', 'default': 'first is not None', 'two': 'second is not None'}
+NEWSTATE_ARITY = {'star': (0, 3), 'first': (1, 3), 'default': (0, 2), 'two': (2, 2)}
+# what __new__ stores
+NEWSTATE_HOW = {'first': 'first', 'count': 'len(args)', 'argtuple': 'tuple(args)', 'typename': 'type(first).__name__',
+                'list': '[]', 'dict': '{}', 'set': 'set()', 'const': "'pending'", 'serial': 'next(cls._serials)'}
+NEWSTATE_MUTATIONS = {'list': 'append', 'dict': 'setitem', 'set': 'add'}
+NEWSTATE_INITS = ('none', 'same', 'formatted', 'empty', 'reversed')
+NEWSTATE_NAMES = ('limit', 'history', 'context', 'state', 'serial', 'kind', 'seen', 'count', 'origin')
+NEWSTATE_VALUES = ('5', "'disk'", '2.5', "('a', 1)", 'None', '[1]', "'%s'", '0')
+
+
+def newstate_source(case):
+  """python source of the exception class `Stateful` described by the case, and of the expression constructing it"""
+  L = ['import itertools', '', 'class Stateful(%s):' % case['base'],
+       '  """per-instance state written by __new__ (%s), __init__: %s"""' % (case['sig'], case['init'])]
+  L += ['  %s = %s' % (n, "'class default'") for n in case['shadow']]
+  if any(how == 'serial' for _, how in case['fields']):
+    L.append('  _serials = itertools.count(1)')
+  L += NEWSTATE_SIGS[case['sig']]
+  conditional = case.get('conditional', [])
+  L += ['    self.%s = %s' % (n, NEWSTATE_HOW[how]) for n, how in case['fields'] if n not in conditional]
+  if conditional:
+    L.append('    if %s:' % NEWSTATE_GIVEN[case['sig']])
+    L += ['      self.%s = %s' % (n, NEWSTATE_HOW[how]) for n, how in case['fields'] if n in conditional]
+  L.append('    return self')
+  init = case['init']
+  if init != 'none':
+    L.append('  def __init__(self, *args, **kw):')
+    L.append({'same': '    super().__init__(*args)',
+              'formatted': "    super().__init__('%s exceeded: %s' % (type(self).__name__, ', '.join(map(repr, args))))",
+              'empty': '    super().__init__()',
+              'reversed': '    super().__init__(*reversed(args))'}[init])
+    L.append("    self.used = kw.get('used', 0)")
+  if case.get('custom_str'):
+    L += ['  def __str__(self):', "    return '%s<%s>' % (type(self).__name__, '; '.join(map(repr, self.args)))"]
+  ctor = list(case['ctor'])
+  if init != 'none' and case.get('used') is not None:
+    ctor.append('used=%s' % case['used'])
+  return '\n'.join(L) + '\n', 'Stateful(%s)' % ', '.join(ctor)
+
+
+class NewStateEngine(Engine):
+  """exception classes whose own __new__ (user classes with constructor arguments in __new__ -- property text) writes
+  per-instance attributes: derived from its arguments, fresh containers, constants, a per-class serial number.  What the
+  original carries when it is raised is what __new__ AND everything after it made of these attributes: __init__ may hand
+  other arguments to BaseException (.args is then a formatted message, empty, or reordered -- not what __new__ saw), and
+  the code that raises fills the containers or reassigns the attributes first.  __new__ may store an attribute only when
+  it is given an argument, the raising code may delete one from the instance: the original then reads the class-level
+  default of that name (if there is one; otherwise the name is not readable on the original and nothing is claimed).
+  Every name that is readable on the original reads -- property text -- the same on what the caller catches.  Names come from the case.  Implementation
+  only: Model/ExcProxy.v does not model constructors (it is handed their measured outcomes)."""
+  name = 'new-state'
+  model = False
+  rule = ('new-state: a class (bases Exception / ValueError / RuntimeError / KeyError / LookupError / ArithmeticError) whose '
+          '__new__ (signatures *args / first, *rest / two defaults / two required) stores 1-4 instance attributes (first '
+          'argument, argument count / tuple / type name, a fresh list / dict / set, a constant, a per-class serial), some '
+          'shadowing class-level defaults, some stored only when __new__ is given an (extra) argument; __init__ absent, passing the arguments on, passing a formatted message, nothing, '
+          'or the reversed arguments to BaseException; containers filled / attributes reassigned / deleted from the instance '
+          'between construction and raise; optional __str__; depth 1-3, directly or in reference evaluation, in a scope or not; same class, traceback, '
+          'message extended with configurable and scope, args and every attribute equal')
+
+  def budget(self, tier):
+    return 80 if tier == 'quick' else 2000
+
+  def corpus(self):
+    return [
+        # a formatted message in .args, state filled before the raise
+        {'base': 'Exception', 'sig': 'first', 'fields': [['limit', 'first'], ['history', 'list']], 'shadow': [], 'init': 'formatted',
+         'ctor': ['5'], 'used': '7', 'mutate': [['history', 'append']], 'custom_str': True, 'depth': 2, 'via_ref': False,
+         'scope': 'nightly'},
+        # .args empty: __new__ runs again without arguments
+        {'base': 'ValueError', 'sig': 'star', 'fields': [['state', 'const'], ['serial', 'serial'], ['seen', 'set'], ['origin', 'first']],
+         'shadow': [], 'init': 'empty', 'ctor': ["'disk'", '2.5'], 'used': None, 'mutate': [['state', 'assign']], 'custom_str': False,
+         'depth': 1, 'via_ref': False, 'scope': ''},
+        # no __init__ at all, .args are the constructor arguments; one attribute shadows a class-level default
+        {'base': 'KeyError', 'sig': 'default', 'fields': [['kind', 'typename'], ['context', 'dict']], 'shadow': ['kind'],
+         'init': 'none', 'ctor': ["'disk'", '5'], 'used': None, 'mutate': [['context', 'setitem']], 'custom_str': False,
+         'depth': 3, 'via_ref': True, 'scope': 'a/b'},
+        # `detail` is stored only when an argument is given; built without one, the original reads the class-level default,
+        # and .args (a formatted message) is not empty
+        {'base': 'Exception', 'sig': 'star', 'fields': [['detail', 'first'], ['state', 'const']], 'shadow': ['detail'],
+         'conditional': ['detail'], 'init': 'formatted', 'ctor': [], 'used': None, 'mutate': [], 'custom_str': False,
+         'depth': 1, 'via_ref': False, 'scope': ''},
+        # the raising code deletes the per-instance value again: the class-level default shows through on the original
+        {'base': 'RuntimeError', 'sig': 'first', 'fields': [['kind', 'typename'], ['history', 'list']], 'shadow': ['kind'],
+         'conditional': [], 'init': 'same', 'ctor': ["'disk'"], 'used': '7', 'mutate': [['kind', 'delete'], ['history', 'append']],
+         'custom_str': False, 'depth': 2, 'via_ref': True, 'scope': 'train'},
+    ]
+
+  def gen(self, rng, tier):
+    sig = rng.choice(sorted(NEWSTATE_SIGS))
+    lo, hi = NEWSTATE_ARITY[sig]
+    names = rng.sample(NEWSTATE_NAMES, rng.randint(1, 4))
+    fields = [[n, rng.choice(sorted(NEWSTATE_HOW))] for n in names]
+    mutate = []
+    for n, how in fields:
+      r = rng.random()
+      if how in NEWSTATE_MUTATIONS and r < 0.5:
+        mutate.append([n, NEWSTATE_MUTATIONS[how]])
+      elif r > 0.85:
+        mutate.append([n, 'assign'])
+      elif r > 0.75:
+        mutate.append([n, 'delete'])
+    conditional = [n for n in names if rng.random() < 0.2]
+    lacking = set(conditional) | {n for n, op in mutate if op == 'delete'}
+    init = rng.choice(NEWSTATE_INITS)
+    return {'base': rng.choice(NEWSTATE_BASES), 'sig': sig, 'fields': fields,
+            'shadow': [n for n in names if rng.random() < (0.7 if n in lacking else 0.25)], 'conditional': conditional,
+            'init': init,
+            'ctor': [rng.choice(NEWSTATE_VALUES) for _ in range(rng.randint(lo, hi))],
+            'used': rng.choice((None, '7', "'all'")) if init != 'none' else None, 'mutate': mutate,
+            'custom_str': rng.random() < 0.3, 'depth': rng.randint(1, 3), 'via_ref': rng.random() < 0.5,
+            'scope': rng.choice(('', '', 'train', 'a/b'))}
+
+  def shrink(self, case):
+    mutated = {n for n, _ in case['mutate']}
+    for i, (n, _) in enumerate(case['fields']):
+      if n not in mutated and len(case['fields']) > 1:
+        yield dict(case, fields=case['fields'][:i] + case['fields'][i + 1:], shadow=[s for s in case['shadow'] if s != n],
+                   conditional=[s for s in case.get('conditional', []) if s != n])
+    for i in range(len(case['mutate'])):
+      yield dict(case, mutate=case['mutate'][:i] + case['mutate'][i + 1:])
+    for i in range(len(case['shadow'])):
+      yield dict(case, shadow=case['shadow'][:i] + case['shadow'][i + 1:])
+    cond = case.get('conditional', [])
+    for i in range(len(cond)):
+      yield dict(case, conditional=cond[:i] + cond[i + 1:])
+    for k in ('custom_str', 'via_ref'):
+      if case[k]:
+        yield dict(case, **{k: False})
+    if case['used'] is not None:
+      yield dict(case, used=None)
+    if case['scope']:
+      yield dict(case, scope='')
+    if case['depth'] > 1:
+      yield dict(case, depth=case['depth'] - 1)
+    if case['base'] != 'Exception':
+      yield dict(case, base='Exception')
+
+  def impl(self, case):
+    gin = C.fresh_gin()
+    src, ctor = newstate_source(case)
+    env = {'__name__': 'c17newstate'}
+    exec(src, env)  # pylint: disable=exec-used
+    cls = env['Stateful']
+    original = eval(ctor, env)  # pylint: disable=eval-used
+    # what the raising code does with the state __new__ created, before it raises
+    for n, op in case['mutate']:
+      if n not in vars(original):
+        continue      # __new__ was not given what makes it store this one
+      if op == 'append':
+        getattr(original, n).append(('step', 7))
+      elif op == 'setitem':
+        getattr(original, n)['attempt'] = 2
+      elif op == 'add':
+        getattr(original, n).add('worker-3')
+      elif op == 'assign':
+        setattr(original, n, 'reassigned')
+      elif op == 'delete':
+        delattr(original, n)
+      else:
+        raise ValueError(op)
+    names = [n for n, _ in case['fields']] + (['used'] if case['init'] != 'none' else [])
+    # measured on the original, before Gin sees it
+    # (a name __new__ did not store / the raising code deleted is readable only through a class-level default)
+    expected = {n: getattr(original, n) for n in names if hasattr(original, n)}
+    expected['args'] = original.args
+    for n, v in public_attrs(original).items():
+      expected.setdefault(n, v)
+    lacks = [n for n in names if n not in vars(original)]
+    shown = {n: repr(v) for n, v in expected.items()}
+    text = str(original)
+
+    @gin.configurable
+    def raiser():
+      raise original
+
+    @gin.configurable
+    def level2(a=None):
+      return raiser()
+
+    @gin.configurable
+    def level3(b=None):
+      return level2()
+    scope = case['scope']
+    ref = '@%s%sraiser()' % (scope, '/' if scope else '')
+    if case['via_ref']:
+      gin.parse_config({1: '', 2: 'level2.a = %s' % ref, 3: 'level2.a = %s\nlevel3.b = @level2()' % ref}[case['depth']])
+    fn = {1: raiser, 2: level2, 3: level3}[case['depth']]
+    evaluated = case['via_ref'] and case['depth'] >= 2      # raised while Gin evaluates the (scoped) reference
+    tags = ['new:' + case['sig'], 'init:' + case['init'], 'depth%d' % case['depth']] + (['mutated'] if case['mutate'] else [])
+    caught = None
+    try:
+      if scope and not evaluated:
+        with gin.config_scope(scope):
+          fn()
+      else:
+        fn()
+    except cls as e:      # the except clause that catches the original
+      caught = e
+    except BaseException as e:  # pylint: disable=broad-except
+      return {'obs': T('ClassLost'), 'nontrivial': False, 'tags': tags,
+              'fails': [('exception-class-lost', '%s raised, "except Stateful" does not catch what reaches the caller: %r\n%s'
+                         % (ctor, e, src))]}
+    if caught is None:
+      return {'obs': T('NotRaised'), 'fails': [('exception-swallowed', src)], 'nontrivial': False, 'tags': tags}
+    fails = []
+    if type(caught).__name__ != cls.__name__ or type(caught).__module__ != cls.__module__ or type(caught).__qualname__ != cls.__qualname__:
+      fails.append(('exception-name-changed', '%s.%s' % (type(caught).__module__, type(caught).__qualname__)))
+    tb, frames = caught.__traceback__, []
+    while tb is not None:
+      frames.append(tb.tb_frame.f_code.co_name)
+      tb = tb.tb_next
+    if 'raiser' not in frames:
+      fails.append(('traceback-lost', repr(frames)))
+    got_text = str(caught)
+    if not got_text.startswith(text):
+      fails.append(('message-not-extended', '%r vs %r' % (text, got_text)))
+    else:
+      added = got_text[len(text):]
+      if caught is not original and ("'raiser'" not in added or (scope and "'%s'" % scope not in added)):
+        fails.append(('message-names-no-configurable-or-scope', 'scope %r, added text %r' % (scope, added)))
+    obs_attrs = []
+    for n in sorted(expected):
+      try:
+        got = getattr(caught, n)
+        ok = ExcEngine.same(got, expected[n])
+      except BaseException as e:  # pylint: disable=broad-except
+        got, ok = 'raises %s(%s)' % (type(e).__name__, e), False
+      obs_attrs.append([n, ok])
+      if not ok:
+        fails.append(('new-state-attribute-differs' if n in names else 'attribute-differs',
+                      '%s: readable on the original as %s when it was raised, on what the caller catches: %s\n%s%s%s'
+                      % (n, shown[n], got if isinstance(got, str) and got.startswith('raises ') else repr(got), src, ctor,
+                         ''.join('\n  then %s on .%s' % (op, m) for m, op in case['mutate']))))
+    fails.sort(key=lambda f: not f[0].startswith('new-state'))
+    # .args is not what __new__ was given, or the state moved on after __new__
+    moved = case['init'] in ('formatted', 'empty', 'reversed') or bool(case['mutate']) or bool(lacks)
+    return {'obs': T('Original') if caught is original else T('Proxy', obs_attrs), 'fails': fails[:4],
+            'nontrivial': moved and case['depth'] >= 2, 'tags': tags + (['evaluated-ref'] if evaluated else []) +
+            (['scoped'] if scope else []) + (['original-lacks'] if lacks else [])}
+
+
 class KeywordNamesEngine(Engine):
   """A TypeError (or any other exception) raised by a configurable that was called with keyword NAMES, scope names or
   configurable names Gin then mentions in the text it adds (the "Caller supplied values for: [...]" line): names are data,
@@ -776,4 +1056,4 @@ class KeywordNamesEngine(Engine):
             'tags': ['missing' if case['missing'] else 'raised:' + case['exc']]}
 
 
-ENGINES = [ExcEngine(), ServedEngine(), KeywordNamesEngine()]
+ENGINES = [ExcEngine(), ServedEngine(), NewStateEngine(), KeywordNamesEngine()]
